@@ -879,20 +879,123 @@ class ExprMixin:
         # recorded inside are dropped again afterwards
         saved_pc, saved_ids = list(self.pc), set(self.pc_ids)
         self.assume(z3.And(iv >= 0, iv < src.n))
+        n_guarded = len(self.pc)
+        counter0, heap0 = dict(self.counter), dict(self.heap)
         self.in_quant += 1
         try:
             self.bind_target(g.target, seq_get(src, iv), inner)
             ev = self.ev(elt, inner)
+            inner_facts = list(self.pc[n_guarded:])
         finally:
             self.in_quant -= 1
             self.pc, self.pc_ids = saved_pc, saved_ids
+        if any(self.heap.get(k) is not v for k, v in heap0.items()) or len(self.heap) != len(heap0):
+            heap_changed = [k for k in self.heap if self.heap.get(k) is not heap0.get(k)]
+            if any(k not in heap0 or not self.same_tree(self.heap[k], heap0[k]) for k in heap_changed):
+                raise Unsupported("comprehension body with heap effects over a symbolic sequence")
+        # values created inside the body (results of contract calls, ...) are one per element: Skolem functions of the index
+        ev, kept = self.skolemize_per_index(ev, inner_facts, counter0, iv)
         ety = type_of(ev)
         R = fresh(Ty('seq', elem=ety, skind=skind), self.fresh_name('comp'))
         R.skind = skind
         self.assume(R.n == src.n)
         self.assume(src.n >= 0)
         self.assume_forall_eq([iv], z3.And(iv >= 0, iv < src.n), sel(R.elem, iv), ev)
+        if isinstance(ev, VInt):
+            R.comp_def = (iv, ev.z)
+        for f in kept:
+            self.assume(z3.ForAll([iv], z3.Implies(z3.And(iv >= 0, iv < src.n), f)))
         return R
+
+    def same_tree(self, a, b):
+        return a is b
+
+    def skolemize_per_index(self, ev, facts, counter0, iv):
+        """Constants created while the body of a comprehension over a symbolic sequence was evaluated for the arbitrary
+        index `iv` (fresh results of contract calls) denote one value *per element*: each is replaced by a Skolem function of
+        the index, in the element value and in the facts recorded about it, which are kept under the index quantifier.
+        (Leaving them as constants would assert that every element has the same value.)"""
+        import re
+        import copy
+
+        def vmap_z(v, fn):
+            if isinstance(v, (VInt, VBool, VRef)):
+                w = copy.copy(v)
+                w.z = fn(v.z)
+                return w
+            if isinstance(v, VOptInt):
+                w = copy.copy(v)
+                w.isnone, w.z = fn(v.isnone), fn(v.z)
+                return w
+            if isinstance(v, VTuple):
+                return VTuple([vmap_z(x, fn) for x in v.items])
+            if isinstance(v, (VNone, VOpaque)):
+                return v
+            raise Unsupported(f"comprehension element {v!r} with per-element results {sorted(consts)}")
+        pat = re.compile(r'^(.+?)!(\d+)')
+
+        def is_new(name):
+            m = pat.match(name)
+            return bool(m) and int(m.group(2)) >= counter0.get(m.group(1), 0)
+
+        consts = {}
+
+        def collect(t, seen):
+            if t.get_id() in seen:
+                return
+            seen.add(t.get_id())
+            if z3.is_const(t) and t.decl().kind() == z3.Z3_OP_UNINTERPRETED:
+                if is_new(t.decl().name()) and not t.eq(iv):
+                    consts[t.decl().name()] = t
+            elif z3.is_app(t):
+                for ch in t.children():
+                    collect(ch, seen)
+            elif z3.is_quantifier(t):
+                collect(t.body(), seen)
+
+        seen = set()
+        zs = []
+        try:
+            vmap_z(ev, lambda z: (zs.append(z), z)[1])
+        except Unsupported:
+            # a sequence-valued element (e.g. [[0] * n for _ in range(m)]): handled only when nothing was created inside
+            zs = []
+        for z in zs:
+            collect(z, seen)
+        for f in facts:
+            collect(f, seen)
+        if not consts:
+            return ev, []
+        subs = []
+
+        def mentions_new(t):
+            found = {}
+            saved = dict(consts)
+            consts.clear()
+            collect(t, set())
+            found.update(consts)
+            consts.clear()
+            consts.update(saved)
+            return bool(found)
+
+        # a created constant that a recorded fact defines by a term over older symbols is replaced by that term
+        for f in facts:
+            if z3.is_eq(f):
+                a, b = f.children()
+                for c, t in ((a, b), (b, a)):
+                    if z3.is_const(c) and c.decl().kind() == z3.Z3_OP_UNINTERPRETED and c.decl().name() in consts \
+                            and not mentions_new(t):
+                        subs.append((c, t))
+                        del consts[c.decl().name()]
+                        break
+        for name, c in consts.items():
+            if z3.is_array(c):
+                raise Unsupported("comprehension body creates a sequence-valued result over a symbolic sequence")
+            F = z3.Function(name + '@i', I, c.sort())
+            subs.append((c, F(iv)))
+        ev2 = vmap_z(ev, lambda z: z3.substitute(z, *subs))
+        kept = [z3.substitute(f, *subs) for f in facts]
+        return ev2, kept
 
     def alloc_comprehension(self, elt, g, src, inner, fr, node):
         """[C(args) for x in seq] / [x.m(args) for x in seq] where the callee has an allocating contract without other
